@@ -171,6 +171,22 @@ CLAIMS = {
         technique="Lean 4 proof (integer arithmetic, termination measure for the reduction loop) + "
                   "differential correspondence + structural oracle",
         ref="DESIGN.md §6 C08"),
+    "C01": dict(
+        text="Lean 4 theorems: for all sizes and all (non-cubic) chunk sizes every voxel position lies in exactly "
+             "one cell of the loop of volume_to_precomputed (nothing missing, nothing twice), every written "
+             "cell is on the chunk grid, and the documented value mapping (header slope/intercept, then "
+             "[input_min,input_max] onto the target range) equals the rewritten slope/intercept the code "
+             "hands to nibabel (over Q); value conversion = C11, chunk stores = C03/C12/C05. End-to-end tie: "
+             "NIfTI files (3-D, 4-D, RGB; ten on-disk types; patched header scaling) converted by the real "
+             "volume_file_to_precomputed under deep/flat x gzip/plain and sharded layouts, full load and "
+             "--mmap, --ignore-scaling, --input-min/max, raw and compressed_segmentation; every chunk read back "
+             "through a fresh accessor and each voxel compared with the exact mapping; write order compared "
+             "with the Lean loop. Found and repaired F29/F30/F31; values >= 2^64 into uint64 = known finding F6.",
+        note="Trusted: Lean kernel; standard axioms (Mathlib field_simp/ring over Q); nibabel's reading and "
+             "float scaling (tolerance 2^-18 relative for non-exact cases, counted in the evidence); tie = sampling.",
+        technique="Lean 4 proof (partition of the index space, field identity) + end-to-end differential "
+                  "correspondence",
+        ref="DESIGN.md §6 C01"),
 }
 
 ALL = ["C%02d" % i for i in range(1, 21)]
